@@ -75,7 +75,7 @@ def main(tier=None, replay=None):
     r = ck.tlc('LogicLaws', 'LogicLaws', label='M:LogicLaws', cont=False)
     ck.require_clean(r, allow_violation=False)
     kernel.run(ck, rnd, (PID,))
-    recs, metas = make(ck, rnd, ck.pick(200, 2000))
+    recs, metas = make(ck, rnd, ck.pick(300, 2000))
     wrec.judge(ck, recs, metas, (PID,))
     const = sum(1 for x in recs for row in x['resp8'] for v in row if v in (0, 3))
     haz = sum(1 for x in recs for row in x['resp8'] for v in row if v in (4, 7))
